@@ -591,4 +591,118 @@ theorem live_message_tags (xml : Str → XmlVerdict) (hx : ∀ s, xml s ≠ .oth
     run (liveEnv xml) ctx file = (messageRules (liveEnv xml) ctx file).1.flatten ++ (messageRules (liveEnv xml) ctx file).2 :=
   (msg_nocrash (live_sane xml hx) ctx file).2
 
+/-! ## pins: what the translator read from /repo is what the rules are written for -/
+
+/-- PIN: the tag names the three methods can emit (ast walk of /repo) are exactly the model's. -/
+theorem emitted_tags_pin :
+    Generated.StringFormats.emittedTags =
+      [(lit "check_messages", MTag.ofCheckMessages.map MTag.name),
+       (lit "_check_message_flags", MTag.ofCheckMessageFlags.map MTag.name),
+       (lit "_check_message_xml_format", MTag.ofXmlFormat.map MTag.name)] := by decide
+
+/-- the unusual-character class as documented in the source comments: C0 except TAB, LF, ESC; ESC except when followed by `[`;
+    DEL; C1; U+FEFF; U+FFFD; U+FFFE, U+FFFF; U+00BF but only directly after a word character -/
+def documentedUnusual (word : Nat → Bool) (prev : Option Nat) (c : Nat) (next : Option Nat) : Bool :=
+  (c ≤ 0x1F && c != 0x09 && c != 0x0A && c != 0x1B)
+  || (c == 0x1B && next != some 0x5B)
+  || c == 0x7F
+  || (0x80 ≤ c && c ≤ 0x9F)
+  || c == 0xFEFF || c == 0xFFFD || c == 0xFFFE || c == 0xFFFF
+  || (c == 0xBF && (match prev with | some p => word p | none => false))
+
+/-- PIN: the regex tree of `find_unusual_characters` is the documented class (as alternatives) -/
+theorem unusual_class_pin :
+    Generated.StringFormats.unusualAlts =
+      [(none, (false, [(0x0, 0x8), (0xB, 0x1A), (0x1C, 0x1F)], false), none),
+       (none, (false, [(0x1B, 0x1B)], false), some (false, (false, [(0x5B, 0x5B)], false))),
+       (none, (false, [(0x7F, 0x7F)], false), none),
+       (none, (false, [(0x80, 0x9F)], false), none),
+       (none, (false, [(0xFEFF, 0xFEFF)], false), none),
+       (none, (false, [(0xFFFD, 0xFFFD)], false), none),
+       (none, (false, [(0xFFFE, 0xFFFF)], false), none),
+       (some (true, (false, [], true)), (false, [(0xBF, 0xBF)], false), none)] := by rfl
+
+/-- with these alternatives, a position matches iff the documented predicate holds (for every `\w` table, every context) -/
+theorem unusual_class_documented (word : Nat → Bool) (prev : Option Nat) (c : Nat) (next : Option Nat) :
+    (Generated.StringFormats.unusualAlts.any (altMatch word prev c next)) = documentedUnusual word prev c next := by
+  rw [unusual_class_pin]
+  simp only [List.any_cons, List.any_nil, altMatch, lookOk, ccMatch, inRanges, documentedUnusual, Bool.or_false,
+    Bool.false_and, Bool.false_or, Bool.true_and, Bool.and_true, Bool.false_eq_true, if_false, if_true]
+  rw [Bool.eq_iff_iff]
+  cases prev <;> cases next <;> simp <;> grind
+
+/-- PIN: the conflict-marker pattern is `^#-#-#-#-#  .+  #-#-#-#-#$` -/
+theorem conflict_marker_pin :
+    Generated.StringFormats.conflictPrefix = lit "#-#-#-#-#  " ∧ Generated.StringFormats.conflictSuffix = lit "  #-#-#-#-#" := by
+  decide
+
+/-- PIN: the `range:` flag syntax, the flag prefixes and the conflict pairs -/
+theorem flag_syntax_pin :
+    Generated.StringFormats.rangePrefix = lit "range:" ∧ Generated.StringFormats.rangeSep = lit ".." ∧
+    Generated.StringFormats.rangeStrip = [32, 9, 13, 12, 11] ∧
+    Generated.StringFormats.rangeDigits1 = [(48, 57)] ∧ Generated.StringFormats.rangeDigits2 = [(48, 57)] ∧
+    Generated.StringFormats.formatPrefixes = [lit "no-", lit "possible-", lit "impossible-", []] ∧
+    Generated.StringFormats.conflictPairs = [([], lit "no"), ([], lit "impossible"), (lit "possible", lit "impossible")] := by
+  decide
+
+/-- PIN: the XML gate is `type: Content of: ` followed by `<name>`s with the XML 1.0 NameStartChar / NameChar classes -/
+theorem xml_gate_pin :
+    Generated.StringFormats.xmlGatePrefix = lit "type: Content of: " ∧
+    Generated.StringFormats.xmlGateOpen = 60 ∧ Generated.StringFormats.xmlGateClose = 62 ∧
+    Generated.StringFormats.xmlNameStart =
+      [(0x3A, 0x3A), (0x41, 0x5A), (0x5F, 0x5F), (0x61, 0x7A), (0xC0, 0xD6), (0xD8, 0xF6), (0xF8, 0x2FF), (0x370, 0x37D),
+       (0x37F, 0x1FFF), (0x200C, 0x200D), (0x2070, 0x218F), (0x2C00, 0x2FEF), (0x3001, 0xD7FF), (0xF900, 0xFDCF),
+       (0xFDF0, 0xFFFD), (0x10000, 0xEFFFF)] ∧
+    Generated.StringFormats.xmlNameNext =
+      [(0x2D, 0x2E), (0x30, 0x3A), (0x41, 0x5A), (0x5F, 0x5F), (0x61, 0x7A), (0xB7, 0xB7), (0xC0, 0xD6), (0xD8, 0xF6),
+       (0xF8, 0x37D), (0x37F, 0x1FFF), (0x200C, 0x200D), (0x203F, 0x2040), (0x2070, 0x218F), (0x2C00, 0x2FEF),
+       (0x3001, 0xD7FF), (0xF900, 0xFDCF), (0xFDF0, 0xFFFD), (0x10000, 0xEFFFF)] := by
+  decide
+
+/-- PIN: the four formats with a checker are formats of data/string-formats -/
+theorem checker_keys_pin :
+    Generated.StringFormats.formatCheckerKeys = [lit "c", lit "perl-brace", lit "python", lit "python-brace"] ∧
+    Generated.StringFormats.formatCheckerKeys.all liveFlagEnv.isFormat = true := by decide
+
+/-! ## non-vacuity -/
+
+def xmlOk : Str → XmlVerdict := fun _ => .ok
+def poCtx : Ctx := ctxOf false true
+def msg (id : String) (str : String) (flags : List String := []) : Entry :=
+  { msgid := lit id, msgctxt := none, msgidPlural := none, msgstr := some (lit str), msgstrPlural := [],
+    flags := flags.map lit, obsolete := false, prevMsgctxt := none, prevMsgid := none, prevMsgidPlural := none, comment := [] }
+
+/-- second definition of the same msgid: exactly one duplicate tag, on the second entry -/
+example : (trace (liveEnv xmlOk) poCtx [msg "a" "x", msg "a" "y", msg "a" "z"]).1.map (has .duplicateMessageDefinition)
+    = [false, true, false] := by decide +kernel
+
+/-- the empty file -/
+example : checkMessages (liveEnv xmlOk) poCtx [] = [.tag .emptyFile []] := by decide +kernel
+
+/-- an obsolete entry only: empty-file, nothing else -/
+example : checkMessages (liveEnv xmlOk) poCtx [{ msg "a" "x" with obsolete := true }] = [.tag .emptyFile []] := by decide +kernel
+
+/-- an unusual character is reported once per file: the second message with ESC stays silent -/
+example : (trace (liveEnv xmlOk) poCtx [msg "a" "x\x1by", msg "b" "z\x1b"]).1.map (has .unusualCharacterInTranslation)
+    = [true, false] := by decide +kernel
+
+/-- ... and not at all when the msgid has it too, or when it starts a CSI sequence -/
+example : (trace (liveEnv xmlOk) poCtx [msg "a\x1b" "x\x1by", msg "b" "z\x1b[0m"]).1.map (has .unusualCharacterInTranslation)
+    = [false, false] := by decide +kernel
+
+/-- flags: conflicting, redundant, duplicate, unknown, invalid range, range without plural -/
+example : ((trace (liveEnv xmlOk) poCtx
+      [msg "a" "x" ["c-format", "no-c-format", "possible-c-format", "wrap", "wrap", "fuzy", "range:2..1"]]).1.map fun l =>
+        [has .conflictingMessageFlags l, has .redundantMessageFlag l, has .duplicateMessageFlag l, has .unknownMessageFlag l,
+         has .invalidRangeFlag l, has .rangeFlagWithoutPluralString l])
+    = [[true, true, true, true, true, true]] := by decide +kernel
+
+/-- a clean message: only the dispatch to the C format checker -/
+example : (checkMessages (liveEnv xmlOk) poCtx [msg "%d files" "%d Dateien" ["c-format"]]).all
+    (fun x => match x with | .fmt _ _ => true | _ => false) = true := by decide +kernel
+
+/-- fuzzy exempts the conflict marker -/
+example : (trace (liveEnv xmlOk) poCtx [msg "a" "#-#-#-#-#  x.po  #-#-#-#-#", msg "b" "#-#-#-#-#  x.po  #-#-#-#-#" ["fuzzy"]]).1.map
+    (has .conflictMarkerInTranslation) = [true, false] := by decide +kernel
+
 end I18n.Props.C16
